@@ -282,10 +282,8 @@ impl Links {
         let lane_ids = backwards.remove(&id).unwrap_or_default();
         for lane_id in lane_ids {
             if let Entry::Occupied(mut entry) = forward.entry(lane_id) {
+                //The entry is kept, even when it becomes empty, as it holds the reporter for the lane.
                 entry.get_mut().remove(&id, total_count);
-                if entry.get().is_empty() {
-                    entry.remove();
-                }
             }
         }
         if let Some(reporter) = aggregate_reporter {
